@@ -1304,6 +1304,18 @@ class Interp:
                 acc = self.binop(ast.Add(), acc, v)
                 out.append(acc)
             return Vec(out)
+        if nm in ('getattr', 'hasattr') and len(args) >= 2 and isinstance(args[0], ModuleRef) and isinstance(args[1], str):
+            m_ = self.repo.module(args[0].dotted)
+            try:
+                if m_ is None:
+                    v = self.external(args[0].dotted, args[1])
+                else:
+                    v = self.global_name(m_, args[1])
+                return True if nm == 'hasattr' else v
+            except AnalysisError:
+                if nm == 'hasattr': return False
+                if len(args) > 2: return args[2]
+                raise RaiseSignal(ast.copy_location(ast.Raise(exc=ast.Name(id='AttributeError', ctx=ast.Load()), cause=None), e), f'AttributeError: module {args[0].dotted} has no attribute {args[1]!r}')
         if nm in ('setattr', 'getattr', 'hasattr') and args and isinstance(args[0], Obj) and isinstance(args[1], str):
             o, a_ = args[0], args[1]
             if nm == 'setattr':
